@@ -160,6 +160,17 @@ impl SimDisk {
         img
     }
 
+    /// The image at the moment recording started.
+    pub fn base_image(&self) -> Vec<u8> {
+        self.0.lock().unwrap().base.clone()
+    }
+
+    /// Apply the `i`-th recorded operation to an image being built incrementally.
+    pub fn apply_logged(&self, i: usize, img: &mut Vec<u8>) {
+        let s = self.0.lock().unwrap();
+        apply(img, &s.log[i]);
+    }
+
     /// Crash now: freeze the device and return the surviving image.
     pub fn crash(&self, loss: Loss) -> Vec<u8> {
         let mut s = self.0.lock().unwrap();
@@ -174,9 +185,11 @@ impl SimDisk {
         self.0.lock().unwrap().frozen = true;
     }
 
-    /// Current full image (what a clean shutdown leaves).
+    /// Current full image (what a clean shutdown leaves). Must not be used after `freeze`.
     pub fn image(&self) -> Vec<u8> {
-        self.0.lock().unwrap().cur.clone()
+        let s = self.0.lock().unwrap();
+        assert!(!s.frozen, "image() after freeze would leak post-crash writes");
+        s.cur.clone()
     }
 
     /// Fail the `n`-th mutating call from now (0 = the next one) if it is of the right kind;
@@ -203,6 +216,9 @@ impl SimDisk {
 }
 
 impl DiskState {
+    pub fn log_ops(&self) -> &[Op] {
+        &self.log
+    }
     fn check_fail(&mut self, which: FailKind) -> io::Result<()> {
         if self.failing {
             self.errors_injected += 1;
@@ -246,6 +262,9 @@ impl redb::StorageBackend for SimDisk {
     fn set_len(&self, len: u64) -> io::Result<()> {
         let mut s = self.0.lock().unwrap();
         if s.frozen {
+            // after the crash instant the device keeps reads coherent for the dying process,
+            // but nothing it does is recorded or becomes part of any crash image
+            s.cur.resize(len as usize, 0);
             return Ok(());
         }
         s.check_fail(FailKind::NoSpace)?;
@@ -277,6 +296,10 @@ impl redb::StorageBackend for SimDisk {
     fn write(&self, off: u64, data: &[u8]) -> io::Result<()> {
         let mut s = self.0.lock().unwrap();
         if s.frozen {
+            let o = off as usize;
+            if o + data.len() <= s.cur.len() {
+                s.cur[o..o + data.len()].copy_from_slice(data);
+            }
             return Ok(());
         }
         s.check_fail(FailKind::WriteEio)?;
